@@ -693,6 +693,22 @@ func (p *probe) run(ctx vivid.ActorContext, prog []Step, curID int) {
 			kref := w.Resolve(st.To, st.Via, p, ctx)
 			w.call(who, "kill", 0, nil, kref.GetPath())
 			ctx.Kill(kref, st.B, "verif")
+		case "waitgone":
+			// stay inside the handler until the target's path has been released (virtual time passes meanwhile)
+			gref := w.Resolve(st.To, st.Via, p, ctx)
+			gone := false
+			for i := 0; i < 2000 && !gone; i++ {
+				if _, err := w.Sys.FindActor("localhost" + gref.GetPath()); err != nil {
+					gone = true
+				} else {
+					time.Sleep(time.Millisecond)
+				}
+			}
+			var werr error
+			if !gone {
+				werr = errors.New("still registered after 2 s")
+			}
+			w.call(who, "waitgone", 0, werr, gref.GetPath())
 		case "panic":
 			panic(fmt.Sprintf("verif: panic in message %d", curID))
 		case "failed":
